@@ -300,6 +300,9 @@ var c02SlotVars = []string{"x", "r", "g", "w0", "w1", "w2", "w3"} // integer slo
 var c02BoxedVars = []string{"bx", "br", "gb", "t", "wt"}          // boxed
 
 // c02TypeDecls / c02ContainerDecls are also used by the native gate programs.
+// c02KeyDecl: the struct type of the index variable / map key in the KeyBox variant of a sequence
+const c02KeyDecl = "type c02K struct { A int }"
+
 func c02TypeDecl(k string) string { return fmt.Sprintf("type c02T_%s struct { F %s; H %s }", k, k, k) }
 
 func c02Field(st reflect.Value, i int) reflect.Value { return st.Field(i) }
@@ -382,6 +385,9 @@ func newC02Env() (*c02Env, error) {
 		}
 	}
 	if err := declare(c02BoxedVars); err != nil {
+		return nil, err
+	}
+	if err := ev(c02KeyDecl); err != nil {
 		return nil, err
 	}
 	for _, k := range c02Kinds {
